@@ -106,7 +106,7 @@ def run_config(ir, cfg):
         return [dict(sig=_classes(sig, ir), expected="a docstring", observed=repr(e)[:200])], "emit-raises"
     import re as _re
 
-    declares = {"rest": r":param %s:", "google": r"^\s+%s( \(|:)", "numpydoc": r"^%s :"}[cfg["style"]]
+    declares = {"rest": r":param %s:", "google": r"^\s+%s( \(|:)", "numpydoc": r"^%s( :|$)"}[cfg["style"]]
     missing = [n for n in ir["params"] if not _re.search(declares % _re.escape(n), text, _re.M)]
     if missing:
         # nothing can be recovered from a text that does not even name the parameters: one violation, no field comparison
